@@ -12,6 +12,7 @@ from __future__ import annotations
 
 import bundler_gen as G
 import bundler_props as P
+import re_probes as RP
 
 MANIFEST = {
     "text": "FULL under the device contract (written down as the model's detector `detCollect`, the fake used on the real code). "
@@ -38,7 +39,9 @@ extract = P.extract
 
 def run(ctx, model=True):
     lim = 3 if (ctx.tier == "thorough" or ctx.deep) else 2
-    return P.run(ctx, "C45", "C45", 900, 20000, exhaustive=(lambda: G.exhaustive_dets(lim),), model=model, rule=RULE)
+    res = P.run(ctx, "C45", "C45", 900, 20000, exhaustive=(lambda: G.exhaustive_dets(lim),), model=model, rule=RULE)
+    RP.add_to(res, ["stream-assets"])
+    return res
 
 
 def run_impl_only(ctx):
@@ -46,4 +49,7 @@ def run_impl_only(ctx):
 
 
 def replay(ctx, data):
+    r = RP.replay(data)
+    if r is not None:
+        return r
     return P.replay(ctx, "C45", data)
